@@ -119,6 +119,7 @@ where
     // start from raw binary data in 1/4 of the imported starts (the implicit marker word then
     // becomes part of the exported words)
     let binary_start = start_kind == 3 && rng.bool();
+    let mut clone_via: crate::report::CloneVia<Coder<M, S>> = crate::report::CloneVia::new();
     let mut coder: Coder<M, S> = if binary_start {
         run.count("starts_from_binary", 1);
         AnsCoder::from_binary(init_words.clone()).unwrap_infallible()
@@ -253,7 +254,7 @@ where
                 order.truncate(cut);
             }
             // twin: per-symbol loop
-            let mut twin = coder.clone();
+            let mut twin = clone_via.clone_of(run, rng, &coder);
             let mut new_shadow = Vec::new();
             for &i in &order {
                 let (sym, mi) = items_idx[i];
@@ -311,8 +312,21 @@ where
             {
                 kk += 1;
             }
-            let mut form = *rng.pick(&[DecForm::Loop, DecForm::Symbols, DecForm::TrySymbols, DecForm::Iid]);
-            if form == DecForm::Iid {
+            let (r1, r2, r3) = (rng.usize_in(2, 3), rng.usize_in(1, 3), rng.usize_in(1, 2));
+            let mut form = *rng.pick(&[
+                DecForm::Loop,
+                DecForm::Loop,
+                DecForm::Symbols,
+                DecForm::Symbols,
+                DecForm::TrySymbols,
+                DecForm::TrySymbols,
+                DecForm::Iid,
+                DecForm::Iid,
+                DecForm::SymbolsStepBy(r1),
+                DecForm::TrySymbolsSkip(r2),
+                DecForm::IidNth(r3),
+            ]);
+            if matches!(form, DecForm::Iid | DecForm::IidNth(_)) {
                 // need identical model for all
                 let m0 = shadow.last().unwrap().model;
                 let mut j = 0;
@@ -335,7 +349,9 @@ where
                     let sy = m.lookup(q);
                     m.cp(sy)
                 });
-                if g != e.sym {
+                if g == SKIPPED {
+                    run.count("decodes_skipped_by_iterator_adaptors", 1);
+                } else if g != e.sym {
                     fail!("wrong-symbol", "C01/decode-mismatch", "{form:?} pop #{j} returned {g}, expected {} (model P={} cdf={:?})", e.sym, m.prec(), m.cdf());
                 }
                 let _ = e.snap;
@@ -449,7 +465,7 @@ where
             let lim = expect.len().min(24);
             match kind {
                 0 => {
-                    let mut cl = coder.clone();
+                    let mut cl = clone_via.clone_of(run, rng, &coder);
                     for &(sym, mi) in &expect[..lim] {
                         let g = zoo[mi].ans_decode(&mut cl).unwrap_infallible();
                         if g != sym {
